@@ -418,8 +418,142 @@ fn frame_ends(inbound: &[u8], from: usize) -> Vec<usize> {
     v
 }
 
+/// Fault sequences with the transport stalled: data is queued and cannot be written
+/// when the stream ends / the server closes (and then ends the stream).
+fn stalled_case(kind: u8, queued_kb: usize, res: &mut CaseResult) {
+    let (conn, h) = session::open_default(Reflex::default());
+    let mut conn = match conn {
+        Ok(c) => c,
+        Err(e) => {
+            res.inconclusive(format!("handshake: {}", ek(&e)));
+            return;
+        }
+    };
+    let (pubch, rpcch) = match (conn.open_channel(None), conn.open_channel(None)) {
+        (Ok(a), Ok(b)) => (a, b),
+        _ => {
+            res.inconclusive("open_channel failed");
+            return;
+        }
+    };
+    let rpc_id = rpcch.channel_id();
+    // nothing can be written from now on
+    h.with(|st| st.budget = 0);
+    let tp = run::spawn("publisher", move || {
+        let body = vec![3u8; 1024];
+        let mut n = 0;
+        let mut err = None;
+        for _ in 0..queued_kb {
+            match pubch.basic_publish("", Publish::new(&body, "stalled")) {
+                Ok(()) => n += 1,
+                Err(e) => {
+                    err = Some(ek(&e));
+                    break;
+                }
+            }
+        }
+        let later = pubch.qos(0, 0, false).map_err(|e| ek(&e));
+        (n, err, later)
+    });
+    let tr = run::spawn("rpc", move || {
+        let r = rpcch.queue_declare("blocked-behind-stall", QueueDeclareOptions::default()).map(|_| ()).map_err(|e| ek(&e));
+        let later = rpcch.qos(0, 0, false).map_err(|e| ek(&e));
+        (r, later)
+    });
+    std::thread::sleep(Duration::from_millis(30));
+    let _ = rpc_id;
+    // the fault (sequence)
+    let accept: Vec<String> = match kind {
+        0 => {
+            h.set_end(InEnd::Eof);
+            vec!["UnexpectedSocketClose".into()]
+        }
+        1 => {
+            h.set_end(InEnd::Err(ErrorKind::ConnectionReset));
+            vec!["IoErrorReadingSocket(ConnectionReset)".into()]
+        }
+        2 => {
+            // the server closes, then the stream ends while our CloseOk still cannot be written
+            h.inject(conn_close_frame(320, "going down"));
+            h.set_end(InEnd::Eof);
+            vec!["UnexpectedSocketClose".into(), "ServerClosedConnection(320,\"going down\")".into()]
+        }
+        3 => {
+            h.inject(conn_close_frame(320, "going down"));
+            h.set_end(InEnd::Err(ErrorKind::ConnectionReset));
+            vec!["IoErrorReadingSocket(ConnectionReset)".into(), "ServerClosedConnection(320,\"going down\")".into()]
+        }
+        _ => {
+            // a write error after the stall
+            h.with(|st| {
+                st.fail_write_from = Some((st.write_calls, ErrorKind::BrokenPipe));
+                st.budget = usize::MAX;
+            });
+            vec!["IoErrorWritingSocket(BrokenPipe)".into()]
+        }
+    };
+    // everybody is released with an error
+    match tp.join(W) {
+        J::Done((n, err, later)) => {
+            res.obs("publishes_queued_behind_stall", n);
+            if err.is_none() && later.is_ok() {
+                res.violate("call_succeeded_after_death", "publisher: every publish and the later call returned Ok".to_string());
+            }
+        }
+        _ => res.violate("caller_not_released", "publisher blocked behind the stalled transport was not released within 20s after the fault".to_string()),
+    }
+    match tr.join(W) {
+        J::Done((r, later)) => {
+            if r.is_ok() || later.is_ok() {
+                res.violate("call_succeeded_after_death", format!("rpc thread: {:?} / {:?}", r, later));
+            }
+        }
+        _ => res.violate("caller_not_released", "RPC blocked behind the stalled transport was not released within 20s after the fault".to_string()),
+    }
+    let h2 = h.clone();
+    let t = run::spawn("close", move || {
+        let r = conn.close();
+        (r, h2.peek(|st| st.released))
+    });
+    match t.join(W) {
+        J::Done((r, released)) => {
+            let got = match &r {
+                Ok(()) => "Ok".to_string(),
+                Err(e) => ek(e),
+            };
+            if !accept.contains(&got) {
+                res.violate("wrong_root_cause", format!("stalled transport, fault kind {}: Connection::close() = {}, want one of {:?}", kind, got, accept));
+            }
+            if !released {
+                res.violate("transport_not_released", "close returned but the transport has not been dropped".to_string());
+            }
+        }
+        _ => res.violate("close_hangs", format!("stalled transport, fault kind {} ({} KB queued): Connection::close still blocked 20s after the stream had ended", kind, queued_kb)),
+    }
+    for p in run::io_panics(&run::take_panics()) {
+        res.violate("io_thread_panic", format!("{} at {}", p.msg, p.loc));
+    }
+}
+
 pub fn run(rc: &mut RunCtx) {
     let seed = rc.seed;
+    // fault sequences with data queued behind a stalled transport
+    for rep in 0..rc.n(2, 8) {
+        for kind in 0..5u8 {
+            for kb in [0usize, 8, 2000] {
+                let id = format!("stalled:kind{}:{}KB:{}", kind, kb, rep);
+                if !rc.mine(&id) {
+                    continue;
+                }
+                rc.begin(&id);
+                let mut res = CaseResult::new(id);
+                stalled_case(kind, kb, &mut res);
+                let kind_name = ["EOF", "read error", "server close then EOF", "server close then read error", "write error after the stall"][kind as usize];
+                res.sample = if rep == 0 && kb == 8 { Some(json!({"stalled_transport": true, "fault_kind": kind_name, "queued_kb": kb})) } else { None };
+                rc.end(res);
+            }
+        }
+    }
     // measure the reference session (every shard does this; it is deterministic)
     let mut tmp = CaseResult::new("measure");
     let measured = reference_run(&Fault::None, &mut tmp, None);
